@@ -140,6 +140,9 @@ class Builtins:
                 return VOptInt(z3.BoolVal(False), z3.If(v.t, 1, 0))
             if isinstance(v, VOptInt):
                 return v
+            if isinstance(v, VIdx):
+                # int-or-slice used as a slice bound: only the int alternative gets this far without a TypeError
+                return VOptInt(z3.BoolVal(False), v.i)
             raise Unsupported("slice component %r" % (v,))
         return VSlice(opt(lo), opt(up), opt(sp))
 
@@ -230,6 +233,7 @@ class Builtins:
     # ------------------------------------------------------------------ item access
     def getitem(self, obj, key, st, k):
         cx = self.cx
+        obj = cx.resolve_ref(obj, st)
         if isinstance(obj, VTuple):
             if isinstance(key, VInt) and z3.is_int_value(z3.simplify(key.t)):
                 i = z3.simplify(key.t).as_long()
@@ -253,6 +257,11 @@ class Builtins:
                                  lambda b: raise_(b, "KeyError"))
         if isinstance(obj, VFunc) and obj.kind == "objdict":
             return self.objdict_get(obj.ref, key, st, k)
+        if isinstance(obj, VStr) and obj.t is not None and isinstance(key, VSlice):
+            n = z3.Length(obj.t)
+            a, b, c = slice_indices(cx, key, n)
+            return cx.branch(st, c == 1, lambda s1: k(VStr(z3.SubString(obj.t, a, ite(b < a, z3.IntVal(0), b - a))), s1),
+                             lambda s2: (_ for _ in ()).throw(Unsupported("extended slice of a string")))
         hk = getattr(cx, "getitem_hook", None)
         if hk is not None:
             r = hk(self.interp, obj, key, st, k)
@@ -291,6 +300,7 @@ class Builtins:
 
     def setitem(self, obj, key, v, st, k):
         cx = self.cx
+        obj = cx.resolve_ref(obj, st)
         if isinstance(obj, VRef):
             h = st.heap[obj.oid]
             if h.cls:
@@ -304,9 +314,15 @@ class Builtins:
                 return self.m_dict_setitem(obj, [key, v], {}, st, k)
         if isinstance(obj, VFunc) and obj.kind == "objdict":
             return self.objdict_set(obj.ref, key, v, st, k)
+        hk = getattr(cx, "setitem_hook", None)
+        if hk is not None:
+            r = hk(self.interp, obj, key, v, st, k)
+            if r is not None:
+                return r
         raise Unsupported("item assignment on %r" % (obj,))
 
     def delitem(self, obj, key, st, k):
+        obj = self.cx.resolve_ref(obj, st)
         if isinstance(obj, VRef):
             h = st.heap[obj.oid]
             if h.cls:
@@ -320,10 +336,16 @@ class Builtins:
                 return self.m_dict_delitem(obj, [key], {}, st, k)
         if isinstance(obj, VFunc) and obj.kind == "objdict":
             return self.objdict_del(obj.ref, key, st, k)
+        hk = getattr(self.cx, "delitem_hook", None)
+        if hk is not None:
+            r = hk(self.interp, obj, key, st, k)
+            if r is not None:
+                return r
         raise Unsupported("item deletion on %r" % (obj,))
 
     def contains(self, cont, item, st, k):
         cx = self.cx
+        cont = cx.resolve_ref(cont, st)
         if isinstance(cont, VRef):
             h = st.heap[cont.oid]
             if h.cls:
@@ -629,8 +651,12 @@ class Builtins:
     def call_builtin(self, name, args, kwargs, st, k):
         cx = self.cx
         I = self.interp
+        if name == "id" and len(args) == 1:
+            t = as_val(cx, args[0], st)
+            return k(VInt(z3.Function("id_of", Val, z3.IntSort())(t)), st)
         if name == "len":
             (x,) = args
+            x = cx.resolve_ref(x, st)
             if isinstance(x, VRef):
                 h = st.heap[x.oid]
                 if h.kind in ("list", "tuple") and h.payload is not None:
@@ -679,10 +705,22 @@ class Builtins:
             if isinstance(x, VBool):
                 return k(VInt(_as_int(x)), st)
             raise Unsupported("operator.index of %r" % (x,))
+        if name == "setattr":
+            hk = getattr(cx, "dyn_setattr_hook", None)
+            if hk is not None:
+                r = hk(I, args, st, k)
+                if r is not None:
+                    return r
+            raise Unsupported("setattr builtin")
         if name == "hasattr":
             return self.hasattr_(args[0], args[1], st, k)
         if name == "getattr":
             if not (isinstance(args[1], VStr) and args[1].const is not None):
+                hk = getattr(cx, "dyn_getattr_hook", None)
+                if hk is not None:
+                    r = hk(I, args, st, k)
+                    if r is not None:
+                        return r
                 raise Unsupported("getattr with symbolic name")
             if len(args) == 2:
                 return I.getattr(args[0], args[1].const, st, k)
@@ -1328,6 +1366,10 @@ class Builtins:
     def m_dict_items(self, ref, args, kwargs, st, k):
         ks, vs = self.dict_order(st.heap[ref.oid].payload)
         return k(VFunc("pairs", ks=ks, vs=vs, is_mapping=False, distinct=True), st)
+
+    def m_dict_values(self, ref, args, kwargs, st, k):
+        ks, vs = self.dict_order(st.heap[ref.oid].payload)
+        return k(VFunc("iterable", seq=vs), st)
 
     def m_dict_keys(self, ref, args, kwargs, st, k):
         ks, vs = self.dict_order(st.heap[ref.oid].payload)
